@@ -187,7 +187,7 @@ Proof.
   { destruct cpus as [|c cs]; [congruence|].
     apply (meets_aff_valid k pid p c cs _ Hg (wf_elig_rng p F)).
     - unfold all_in. apply forallb_forall. intros x Hx. apply memz_In. apply Hin. exact Hx.
-    - unfold spec_req. rewrite Hg.
+    - unfold spec_req, spec_aff_set. rewrite Hg.
       replace (all_in (c :: cs) (p_elig p)) with true; [reflexivity|].
       symmetry. unfold all_in. apply forallb_forall. intros x Hx. apply memz_In. apply Hin. exact Hx. }
   split; [exact Hg'|]. split.
@@ -311,7 +311,7 @@ Proof.
     { unfold all_in. cbn [forallb]. replace (memz c (p_elig p)) with false; [reflexivity|].
       symmetry. apply memz_false. apply Hout. left. reflexivity. }
     apply (meets_aff_invalid k pid p c cs _ Hg Hall).
-    unfold spec_req. rewrite Hg, Hall.
+    unfold spec_req, spec_aff_set. rewrite Hg, Hall.
     replace (none_in (c :: cs) (p_elig p)) with true; [reflexivity|].
     symmetry. unfold none_in. apply forallb_forall. intros x Hx. apply negb_true_iff. apply memz_false. apply Hout. exact Hx.
   - intros res l Hl. apply (meets_rlimit k pid p _ _ _ Hg Hpid (wf_rlim_len p F)). unfold spec_req. rewrite Hg.
@@ -493,3 +493,39 @@ Example rlimit_negative_values :
   /\ run_req 4242 (Rlimit 3 (Some [5; 2 ^ 64 - 1])) ex_k = (Exc OverflowError, ex_k)
   /\ run_req 4242 (Rlimit 7 (Some [5; 8192])) ex_k = (Exc AccessDenied, ex_k).
 Proof. repeat split; vm_compute; reflexivity. Qed.
+
+
+(* ------------------------------------------------ cpu_affinity(<any iterable>) *)
+(* for every shape of the argument -- list, tuple, set, frozenset, range, dict view, iterator,
+   generator, map, chain, line iterator -- what counts is the sequence it yields on its first
+   (and only) traversal *)
+Theorem affinity_any_iterable k pid p sh items :
+  wf_kernelb k = true -> kget pid k = Some p -> wf_procb k p = true ->
+  (* a non-empty yield: the same as the list of the yielded items *)
+  (items <> [] -> run_req pid (AffinityIt sh items) k = run_req pid (Affinity (Some items)) k)
+  (* ... in particular eligible CPUs: the mask becomes exactly the set of the first traversal *)
+  /\ (items <> [] -> (forall c, In c items -> In c (p_elig p)) ->
+      exists m, ssortedb m = true /\ (forall c, In c m <-> In c items)
+        /\ run_req pid (AffinityIt sh items) k = (Val RNone, kupd pid (set_mask m) k)
+        /\ run_req pid (Affinity None) (kupd pid (set_mask m) k) = (Val (RList m), kupd pid (set_mask m) k))
+  (* ... and only nonexistent / ineligible CPUs: ValueError, nothing changed -- never "all CPUs" *)
+  /\ (items <> [] -> (forall c, In c items -> ~ In c (p_elig p)) -> pid <> 0 ->
+      run_req pid (AffinityIt sh items) k = (Exc ValueError, k))
+  (* an empty sized container is the empty list: all eligible CPUs *)
+  /\ (oneshot sh = false -> run_req pid (AffinityIt sh []) k = run_req pid (Affinity (Some [])) k)
+  (* an empty one-shot iterator (truthy, yields nothing): ValueError, nothing changed *)
+  /\ (oneshot sh = true -> run_req pid (AffinityIt sh []) k = (Exc ValueError, k)).
+Proof.
+  intros Hk Hg Hwf.
+  assert (NE : forall l, l <> [] -> oneshot sh && is_nil l = false).
+  { intros l Hl. destruct l; [congruence|]. apply andb_false_r. }
+  split; [|split; [|split; [|split]]].
+  - intros Hne. apply aff_shape_as_list. apply NE. exact Hne.
+  - intros Hne Hin. destruct (affinity_set_then_get k pid p items Hk Hg Hwf Hne Hin) as [m [Hs [Hm [Hr [_ [_ Hget]]]]]].
+    exists m. split; [exact Hs|]. split; [exact Hm|]. split; [|exact Hget].
+    rewrite (aff_shape_as_list pid sh items k (NE items Hne)). exact Hr.
+  - intros Hne Hout Hpid. rewrite (aff_shape_as_list pid sh items k (NE items Hne)).
+    destruct (invalid_rejected k pid p Hg Hwf Hpid) as [_ [_ [_ [_ [H _]]]]]. apply H; assumption.
+  - intros Ho. apply aff_shape_as_list. rewrite Ho. reflexivity.
+  - intros Ho. exact (aff_oneshot_empty k pid p sh Hg Ho).
+Qed.
